@@ -51,7 +51,7 @@ fn str_len(r: &mut Rng, long_ok: bool) -> usize {
         5 => 63,
         6 => 64,
         7 => r.usize(65, 300),
-        8 if long_ok && r.chance(1, 6) => *r.pick(&[65534usize, 65535, 65536, 65537]),
+        8 if long_ok && r.chance(1, 12) => *r.pick(&[65534usize, 65535, 65536, 65537]),
         _ => r.usize(1, 40),
     }
 }
@@ -283,8 +283,8 @@ fn gen_dataset(r: &mut Rng) -> (InMemDicomObject, Option<String>, Option<String>
     }
     if r.chance(1, 4) {
         // enough bytes to reach past offset 132 also for short meta groups
-        let n = r.usize(0, 200);
-        o.put(DataElement::new(Tag(0x7FE0, 0x10), VR::OB, PrimitiveValue::from(r.bytes(n * 2))));
+        let n = r.usize(0, 400);
+        o.put(DataElement::new(Tag(0x20, 0x4000), VR::LT, PrimitiveValue::from(r.ascii_from(TXT_CH, n))));
     }
     (o, sc, si)
 }
@@ -294,7 +294,18 @@ fn read_res(res: Result<dicom_object::DefaultDicomObject, dicom_object::ReadErro
         Ok(f) => {
             let rew = write_meta(f.meta()).map(|v| hex(&v)).unwrap_or("err".into());
             let m = table(f.meta());
-            let same = f.into_inner() == *orig;
+            // padding-insensitive comparison of the data sets: both re-encoded in Explicit VR LE
+            let enc = |o: &InMemDicomObject| {
+                let mut v = Vec::new();
+                o.write_dataset_with_ts(&mut v, &dicom_transfer_syntax_registry::entries::EXPLICIT_VR_LITTLE_ENDIAN.erased())
+                    .ok()
+                    .map(|_| v)
+            };
+            let inner = f.into_inner();
+            let same = match (enc(&inner), enc(orig)) {
+                (Some(a), Some(b)) => a == b,
+                _ => false,
+            };
             format!("ok {} {} {}", m, same as u8, rew)
         }
         Err(_) => "err".into(),
